@@ -35,6 +35,7 @@ Definition enc_ekind (k : ekind) : list N :=
   | ERunExpired => [7]
   | EDialEnded => [8]
   | EFailure c => [9; fail_code_n c]
+  | EDialWait => [10]
   end.
 
 Definition enc_event (e : event) : list N := enc_stepref (ev_step e) ++ enc_ekind (ev_kind e).
